@@ -1,0 +1,229 @@
+//go:build verif
+
+// Contracts for the verif build tag (comment-only; see /verif/DESIGN.md §4).
+package entities
+
+// ---------------------------------------------------------------------------
+// Shared vocabulary (RFC 7011 §6.1, §7; properties C15/C02/C09)
+// ---------------------------------------------------------------------------
+
+//@ pure vlPrefix(n int) int = n < 255 ? 1 : 3
+//@ pure ie(e InfoElementWithValue) *InfoElement = e.(*baseInfoElement).element
+//@ pure dt(e InfoElementWithValue) int = e.(*baseInfoElement).element.DataType
+//@ pure fixedWidth(d int) int = (d == Unsigned8 || d == Signed8 || d == Boolean) ? 1
+//@     : (d == Unsigned16 || d == Signed16) ? 2
+//@     : (d == Unsigned32 || d == Signed32 || d == Float32 || d == DateTimeSeconds || d == Ipv4Address) ? 4
+//@     : (d == Unsigned64 || d == Signed64 || d == Float64 || d == DateTimeMilliseconds) ? 8
+//@     : d == MacAddress ? 6 : d == Ipv6Address ? 16 : 65535
+//@
+//@ // wfElem: the "well-typed value" of the property quantifiers: the dynamic
+//@ // type matches the element's DataType and fixed-width kinds carry their RFC width.
+//@ pure wfElem(e InfoElementWithValue) bool = !isnil(e) && ie(e) != nil
+//@     && (is(e, *OctetArrayInfoElement) <==> dt(e) == OctetArray)
+//@     && (is(e, *Unsigned8InfoElement) <==> dt(e) == Unsigned8)
+//@     && (is(e, *Unsigned16InfoElement) <==> dt(e) == Unsigned16)
+//@     && (is(e, *Unsigned32InfoElement) <==> dt(e) == Unsigned32)
+//@     && (is(e, *Unsigned64InfoElement) <==> dt(e) == Unsigned64)
+//@     && (is(e, *Signed8InfoElement) <==> dt(e) == Signed8)
+//@     && (is(e, *Signed16InfoElement) <==> dt(e) == Signed16)
+//@     && (is(e, *Signed32InfoElement) <==> dt(e) == Signed32)
+//@     && (is(e, *Signed64InfoElement) <==> dt(e) == Signed64)
+//@     && (is(e, *Float32InfoElement) <==> dt(e) == Float32)
+//@     && (is(e, *Float64InfoElement) <==> dt(e) == Float64)
+//@     && (is(e, *BooleanInfoElement) <==> dt(e) == Boolean)
+//@     && (is(e, *MacAddressInfoElement) <==> dt(e) == MacAddress)
+//@     && (is(e, *StringInfoElement) <==> dt(e) == String)
+//@     && (is(e, *DateTimeSecondsInfoElement) <==> dt(e) == DateTimeSeconds)
+//@     && (is(e, *DateTimeMillisecondsInfoElement) <==> dt(e) == DateTimeMilliseconds)
+//@     && (is(e, *IPAddressInfoElement) <==> (dt(e) == Ipv4Address || dt(e) == Ipv6Address))
+//@     && (dt(e) != OctetArray ==> ie(e).Len == fixedWidth(dt(e)))
+//@
+//@ pure isVar(e InfoElementWithValue) bool = is(e, *StringInfoElement) || (is(e, *OctetArrayInfoElement) && ie(e).Len == 65535)
+//@ pure vlen(e InfoElementWithValue) int = is(e, *StringInfoElement) ? len(e.(*StringInfoElement).value) : len(e.(*OctetArrayInfoElement).value)
+//@ // wireLen: bytes the RFC encoding of e occupies
+//@ pure wireLen(e InfoElementWithValue) int = isVar(e) ? vlPrefix(vlen(e)) + vlen(e) : ie(e).Len
+//@
+//@ pure be16(b []byte, i int) int = b[i] * 256 + b[i+1]
+//@ pure be32(b []byte, i int) int = be16(b, i) * 65536 + be16(b, i+2)
+//@ pure be64(b []byte, i int) int = be32(b, i) * 4294967296 + be32(b, i+4)
+//@ pure tou(v int, m int) int = v < 0 ? v + m : v
+//@ pure ipval(e InfoElementWithValue) []byte = e.(*IPAddressInfoElement).value
+//@ pure macval(e InfoElementWithValue) []byte = e.(*MacAddressInfoElement).value
+//@ pure oaval(e InfoElementWithValue) []byte = e.(*OctetArrayInfoElement).value
+//@ pure strval(e InfoElementWithValue) string = e.(*StringInfoElement).value
+//@
+//@ // encodable: values that have an RFC encoding for their element (C09 / C15)
+//@ pure encodable(e InfoElementWithValue) bool =
+//@       (dt(e) == OctetArray && ie(e).Len < 65535) ? len(oaval(e)) == ie(e).Len
+//@     : dt(e) == OctetArray ? len(oaval(e)) <= 65535
+//@     : dt(e) == String ? len(strval(e)) <= 65535
+//@     : dt(e) == MacAddress ? len(macval(e)) == 6
+//@     : dt(e) == Ipv4Address ? (len(ipval(e)) == 4 || (len(ipval(e)) == 16 && isV4Mapped(ipval(e))))
+//@     : dt(e) == Ipv6Address ? (len(ipval(e)) == 4 || len(ipval(e)) == 16)
+//@     : true
+
+//@ pure byteAt2(v int, k int) int = k == 0 ? v / 256 : v % 256
+//@ pure byteAt4(v int, k int) int = k == 0 ? ((v / 256) / 256) / 256 : k == 1 ? ((v / 256) / 256) % 256 : k == 2 ? (v / 256) % 256 : v % 256
+//@ pure byteAt8(v int, k int) int = k == 0 ? ((((((v / 256) / 256) / 256) / 256) / 256) / 256) / 256
+//@     : k == 1 ? ((((((v / 256) / 256) / 256) / 256) / 256) / 256) % 256
+//@     : k == 2 ? (((((v / 256) / 256) / 256) / 256) / 256) % 256
+//@     : k == 3 ? ((((v / 256) / 256) / 256) / 256) % 256
+//@     : k == 4 ? (((v / 256) / 256) / 256) % 256
+//@     : k == 5 ? ((v / 256) / 256) % 256
+//@     : k == 6 ? (v / 256) % 256 : v % 256
+//@ pure vlByte(n int, k int) int = n < 255 ? n : (k == 0 ? 255 : k == 1 ? n / 256 : n % 256)
+//@
+//@ // wireByte(e, k): byte k of the RFC 7011 encoding of e (big-endian two's
+//@ // complement integers, IEEE bit patterns, 1/2 booleans, raw addresses,
+//@ // length-prefixed variable-length values)
+//@ pure wireByte(e InfoElementWithValue, k int) int =
+//@       dt(e) == Unsigned8 ? e.(*Unsigned8InfoElement).value
+//@     : dt(e) == Signed8 ? tou(e.(*Signed8InfoElement).value, 256)
+//@     : dt(e) == Boolean ? (e.(*BooleanInfoElement).value ? 1 : 2)
+//@     : dt(e) == Unsigned16 ? byteAt2(e.(*Unsigned16InfoElement).value, k)
+//@     : dt(e) == Signed16 ? byteAt2(tou(e.(*Signed16InfoElement).value, 65536), k)
+//@     : dt(e) == Unsigned32 ? byteAt4(e.(*Unsigned32InfoElement).value, k)
+//@     : dt(e) == Signed32 ? byteAt4(tou(e.(*Signed32InfoElement).value, 4294967296), k)
+//@     : dt(e) == Float32 ? byteAt4(e.(*Float32InfoElement).value, k)
+//@     : dt(e) == DateTimeSeconds ? byteAt4(e.(*DateTimeSecondsInfoElement).value, k)
+//@     : dt(e) == Unsigned64 ? byteAt8(e.(*Unsigned64InfoElement).value, k)
+//@     : dt(e) == Signed64 ? byteAt8(tou(e.(*Signed64InfoElement).value, 18446744073709551616), k)
+//@     : dt(e) == Float64 ? byteAt8(e.(*Float64InfoElement).value, k)
+//@     : dt(e) == DateTimeMilliseconds ? byteAt8(e.(*DateTimeMillisecondsInfoElement).value, k)
+//@     : dt(e) == MacAddress ? macval(e)[k]
+//@     : dt(e) == Ipv4Address ? (len(ipval(e)) == 4 ? ipval(e)[k] : ipval(e)[12+k])
+//@     : dt(e) == Ipv6Address ? (len(ipval(e)) == 16 ? ipval(e)[k] : (k < 10 ? 0 : k < 12 ? 255 : ipval(e)[k-12]))
+//@     : dt(e) == String ? (k < vlPrefix(len(strval(e))) ? vlByte(len(strval(e)), k) : sat(strval(e), k - vlPrefix(len(strval(e)))))
+//@     : ie(e).Len < 65535 ? oaval(e)[k]
+//@     : (k < vlPrefix(len(oaval(e))) ? vlByte(len(oaval(e)), k) : oaval(e)[k - vlPrefix(len(oaval(e)))])
+
+// ---------------------------------------------------------------------------
+// GetLength: "1-byte prefix below 255, 3-byte from 255" (C15, C02)
+// ---------------------------------------------------------------------------
+
+//@ func (b *baseInfoElement) GetLength() (r)
+//@   requires recv: b != nil
+//@   requires el: b.element != nil
+//@   ensures  len: r == b.element.Len
+//@
+//@ func (a *OctetArrayInfoElement) GetLength() (r)
+//@   requires recv: a != nil
+//@   requires el: a.element != nil
+//@   ensures  len: r == (a.element.Len < 65535 ? a.element.Len : vlPrefix(len(a.value)) + len(a.value))
+//@
+//@ func (s *StringInfoElement) GetLength() (r)
+//@   requires recv: s != nil
+//@   ensures  len: r == vlPrefix(len(s.value)) + len(s.value)
+
+// ---------------------------------------------------------------------------
+// encodeInfoElementValueToBuff (C15: bytes written == reported length, exact
+// RFC bytes, nothing else touched; C09: unencodable values are refused)
+// ---------------------------------------------------------------------------
+
+//@ func encodeInfoElementValueToBuff(element, buffer, index) (err)
+//@   requires wf:   wfElem(element)
+//@   requires idx:  0 <= index && index <= 140737488355328
+//@   requires noalias: dt(element) == OctetArray ==> arr(oaval(element)) != arr(buffer)
+//@   ensures  room:   old(index + wireLen(element) > len(buffer)) ==> err != nil
+//@   ensures  ok_if:  old(index + wireLen(element) <= len(buffer)) && old(encodable(element)) ==> err == nil
+//@   ensures  err_if: !old(encodable(element)) ==> err != nil
+//@   ensures  bytes: err == nil && old(encodable(element)) ==> forall q in [index, index + old(wireLen(element))): buffer[q] == old(wireByte(element, q - index))
+//@   ensures  frame: forall k in [0, len(buffer)): (k < index || k >= index + old(wireLen(element))) ==> buffer[k] == old(buffer[k])
+//@   modifies buffer[index : index + wireLen(element)]
+//@   replay codec-encode: dtype=dt(element), ielen=ie(element).Len, index=index, buflen=len(buffer)
+
+// ---------------------------------------------------------------------------
+// DecodeAndCreateInfoElementWithValue (C15 inverse direction; C03 no-crash:
+// the precondition full_width is what every caller must establish)
+// ---------------------------------------------------------------------------
+
+//@ pure supportedKind(d int) bool = (0 <= d && d <= 15) || d == Ipv4Address || d == Ipv6Address
+//@ pure isFixedKind(d int) bool = d != OctetArray && d != String
+//@
+//@ func DecodeAndCreateInfoElementWithValue(element, value) (r, err)
+//@   requires ie:         element != nil
+//@   requires full_width: !isnil(value) && isFixedKind(element.DataType) && supportedKind(element.DataType) ==> len(value) == fixedWidth(element.DataType)
+//@   ensures  kinds: (err != nil) <==> !supportedKind(element.DataType)
+//@   replay codec-decode: dtype=element.DataType, ielen=element.Len, valnil=isnil(value)
+//@   ensures  res:   err == nil ==> !isnil(r) && fresh(r) && r.(*baseInfoElement).element == element
+//@   ensures  errnil: err != nil ==> isnil(r)
+//@   ensures  wf:    err == nil && (element.DataType != OctetArray ==> element.Len == fixedWidth(element.DataType)) ==> wfElem(r)
+//@   ensures  tagoa:  err == nil && element.DataType == OctetArray ==> is(r, *OctetArrayInfoElement)
+//@   ensures  tagu8:  err == nil && element.DataType == Unsigned8 ==> is(r, *Unsigned8InfoElement)
+//@   ensures  tagu16: err == nil && element.DataType == Unsigned16 ==> is(r, *Unsigned16InfoElement)
+//@   ensures  tagu32: err == nil && element.DataType == Unsigned32 ==> is(r, *Unsigned32InfoElement)
+//@   ensures  tagu64: err == nil && element.DataType == Unsigned64 ==> is(r, *Unsigned64InfoElement)
+//@   ensures  tags8:  err == nil && element.DataType == Signed8 ==> is(r, *Signed8InfoElement)
+//@   ensures  tags16: err == nil && element.DataType == Signed16 ==> is(r, *Signed16InfoElement)
+//@   ensures  tags32: err == nil && element.DataType == Signed32 ==> is(r, *Signed32InfoElement)
+//@   ensures  tags64: err == nil && element.DataType == Signed64 ==> is(r, *Signed64InfoElement)
+//@   ensures  tagf32: err == nil && element.DataType == Float32 ==> is(r, *Float32InfoElement)
+//@   ensures  tagf64: err == nil && element.DataType == Float64 ==> is(r, *Float64InfoElement)
+//@   ensures  tagbool: err == nil && element.DataType == Boolean ==> is(r, *BooleanInfoElement)
+//@   ensures  tagmac: err == nil && element.DataType == MacAddress ==> is(r, *MacAddressInfoElement)
+//@   ensures  tagstr: err == nil && element.DataType == String ==> is(r, *StringInfoElement)
+//@   ensures  tagdts: err == nil && element.DataType == DateTimeSeconds ==> is(r, *DateTimeSecondsInfoElement)
+//@   ensures  tagdtms: err == nil && element.DataType == DateTimeMilliseconds ==> is(r, *DateTimeMillisecondsInfoElement)
+//@   ensures  tagip:  err == nil && (element.DataType == Ipv4Address || element.DataType == Ipv6Address) ==> is(r, *IPAddressInfoElement)
+//@   ensures  u8:   err == nil && !isnil(value) && element.DataType == Unsigned8 ==> r.(*Unsigned8InfoElement).value == value[0]
+//@   ensures  u16:  err == nil && !isnil(value) && element.DataType == Unsigned16 ==> r.(*Unsigned16InfoElement).value == be16(value, 0)
+//@   ensures  u32:  err == nil && !isnil(value) && element.DataType == Unsigned32 ==> r.(*Unsigned32InfoElement).value == be32(value, 0)
+//@   ensures  u64:  err == nil && !isnil(value) && element.DataType == Unsigned64 ==> r.(*Unsigned64InfoElement).value == be64(value, 0)
+//@   ensures  s8:   err == nil && !isnil(value) && element.DataType == Signed8 ==> tou(r.(*Signed8InfoElement).value, 256) == value[0]
+//@   ensures  s16:  err == nil && !isnil(value) && element.DataType == Signed16 ==> tou(r.(*Signed16InfoElement).value, 65536) == be16(value, 0)
+//@   ensures  s32:  err == nil && !isnil(value) && element.DataType == Signed32 ==> tou(r.(*Signed32InfoElement).value, 4294967296) == be32(value, 0)
+//@   ensures  s64:  err == nil && !isnil(value) && element.DataType == Signed64 ==> tou(r.(*Signed64InfoElement).value, 18446744073709551616) == be64(value, 0)
+//@   ensures  f32:  err == nil && !isnil(value) && element.DataType == Float32 ==> r.(*Float32InfoElement).value == be32(value, 0)
+//@   ensures  f64:  err == nil && !isnil(value) && element.DataType == Float64 ==> r.(*Float64InfoElement).value == be64(value, 0)
+//@   ensures  bool: err == nil && !isnil(value) && element.DataType == Boolean ==> (r.(*BooleanInfoElement).value <==> value[0] == 1)
+//@   ensures  dts:  err == nil && !isnil(value) && element.DataType == DateTimeSeconds ==> r.(*DateTimeSecondsInfoElement).value == be32(value, 0)
+//@   ensures  dtms: err == nil && !isnil(value) && element.DataType == DateTimeMilliseconds ==> r.(*DateTimeMillisecondsInfoElement).value == be64(value, 0)
+//@   ensures  mac:  err == nil && !isnil(value) && element.DataType == MacAddress ==> sameElems(macval(r), value) && fresh(macval(r))
+//@   ensures  ip:   err == nil && !isnil(value) && (element.DataType == Ipv4Address || element.DataType == Ipv6Address) ==> sameElems(ipval(r), value) && fresh(ipval(r))
+//@   ensures  oa:   err == nil && !isnil(value) && element.DataType == OctetArray ==> sameElems(oaval(r), value) && (len(value) > 0 ==> fresh(oaval(r)))
+//@   ensures  str:  err == nil && !isnil(value) && element.DataType == String ==> len(strval(r)) == len(value) && forall k in [0, len(value)): sat(strval(r), k) == value[k]
+//@   ensures  znum: err == nil && isnil(value) ==>
+//@              (element.DataType == Unsigned8 ==> r.(*Unsigned8InfoElement).value == 0) && (element.DataType == Unsigned16 ==> r.(*Unsigned16InfoElement).value == 0)
+//@           && (element.DataType == Unsigned32 ==> r.(*Unsigned32InfoElement).value == 0) && (element.DataType == Unsigned64 ==> r.(*Unsigned64InfoElement).value == 0)
+//@           && (element.DataType == Signed8 ==> r.(*Signed8InfoElement).value == 0) && (element.DataType == Signed16 ==> r.(*Signed16InfoElement).value == 0)
+//@           && (element.DataType == Signed32 ==> r.(*Signed32InfoElement).value == 0) && (element.DataType == Signed64 ==> r.(*Signed64InfoElement).value == 0)
+//@           && (element.DataType == Float32 ==> r.(*Float32InfoElement).value == 0) && (element.DataType == Float64 ==> r.(*Float64InfoElement).value == 0)
+//@           && (element.DataType == Boolean ==> !r.(*BooleanInfoElement).value)
+//@           && (element.DataType == DateTimeSeconds ==> r.(*DateTimeSecondsInfoElement).value == 0) && (element.DataType == DateTimeMilliseconds ==> r.(*DateTimeMillisecondsInfoElement).value == 0)
+//@           && (element.DataType == MacAddress ==> isnil(macval(r))) && (element.DataType == OctetArray ==> isnil(oaval(r)))
+//@           && ((element.DataType == Ipv4Address || element.DataType == Ipv6Address) ==> isnil(ipval(r)))
+//@           && (element.DataType == String ==> strval(r) == "")
+
+// ---------------------------------------------------------------------------
+// Data records (C16: reported length == bytes serialized; C02/C15: the bytes)
+// ---------------------------------------------------------------------------
+
+//@ pure sumWire(L []InfoElementWithValue, n int) int = sum(j in [0, n): wireLen(L[j]))
+//@ pure elemsWF(L []InfoElementWithValue, n int) bool = forall j in [0, n): wfElem(L[j])
+//@ // bufOK: a cached buffer of the right length holds the RFC bytes of every encodable element
+//@ pure bufOK(d *dataRecord, L []InfoElementWithValue, n int) bool =
+//@     forall j in [0, n): old(encodable(L[j])) ==> forall q in [sumWire(L, j), sumWire(L, j+1)): d.buffer[q] == old(wireByte(L[j], q - sumWire(L, j)))
+//@ // recInv: representation invariant of an encoding-side data record with n = fieldCount filled slots
+//@ pure recInv(d *dataRecord) bool = d != nil && d.fieldCount <= len(d.orderedElementList)
+//@     && elemsWF(d.orderedElementList, d.fieldCount)
+//@     && (!d.isDecoding ==> d.len == sumWire(d.orderedElementList, d.fieldCount) && 0 <= d.len)
+//@     && (forall j in [0, d.fieldCount): dt(d.orderedElementList[j]) == OctetArray ==> arr(oaval(d.orderedElementList[j])) != arr(d.buffer) || isnil(d.buffer))
+
+//@ func (d *dataRecord) GetRecordLength() (r)
+//@   requires recv: d != nil
+//@   ensures  len: r == d.len
+//@
+//@ func (d *dataRecord) GetBuffer() (buf)
+//@   requires inv:   recInv(d)
+//@   requires full:  d.fieldCount == len(d.orderedElementList)
+//@   requires cache: !d.isDecoding && len(d.buffer) == d.len ==> bufOK(d, d.orderedElementList, len(d.orderedElementList))
+//@   ensures  same:  buf == d.buffer
+//@   ensures  len:   !d.isDecoding ==> len(buf) == d.len
+//@   ensures  bytes: !d.isDecoding ==> bufOK(d, d.orderedElementList, len(d.orderedElementList))
+//@   ensures  inv:   recInv(d)
+//@   modifies d.buffer
+//@   loop 1 invariant cnt:  0 <= $i && $i <= len(d.orderedElementList)
+//@   loop 1 invariant off:  index == sumWire(d.orderedElementList, $i) && index <= d.len
+//@   loop 1 invariant buf:  fresh(d.buffer) && len(d.buffer) == d.len && !d.isDecoding
+//@   loop 1 invariant done: bufOK(d, d.orderedElementList, $i)
+//@   loop 1 decreases len(d.orderedElementList) - $i
